@@ -48,6 +48,8 @@ type Workflow[I, O any] struct {
 	workflowNodes    map[string]*WorkflowNode
 	workflowBranches []*WorkflowBranch
 	dependencies     map[string]map[string]dependencyType
+	// lateNodes: a node was added after a successful Compile (the inner graph has refused it)
+	lateNodes bool
 }
 
 type dependencyType int
@@ -486,7 +488,7 @@ func (wf *Workflow[I, O]) compile(ctx context.Context, options *graphCompileOpti
 
 	if wf.g.compiled {
 		// whatever was declared after a successful Compile would change the compiled workflow
-		pending := len(wf.workflowBranches) > 0
+		pending := wf.lateNodes || len(wf.workflowBranches) > 0
 		for _, n := range wf.workflowNodes {
 			if len(n.addInputs) > 0 || len(n.staticValues) > 0 {
 				pending = true
@@ -626,6 +628,11 @@ func checkStaticValue(inputType reflect.Type, path FieldPath, value any) error {
 }
 
 func (wf *Workflow[I, O]) initNode(key string) *WorkflowNode {
+	if wf.g.compiled {
+		// the Add*Node methods return the node, not an error: the inner graph's ErrGraphCompiled comes from the next Compile
+		wf.lateNodes = true
+	}
+
 	n := &WorkflowNode{
 		g:            wf.g,
 		key:          key,
